@@ -328,6 +328,8 @@ class ModelBase:
                 return AV(ty=name, elts=[], fresh=True)
             if a0.elts is not None:
                 return AV(ty=name, elts=list(a0.elts), deps=d, fresh=True, elem=a0.elem)
+            if a0.ty == 'ndarray' and a0.rows is not None:
+                return AV(ty=name, elts=list(a0.rows), deps=d, fresh=True)  # the rows of a 2-D array whose rows are known
             if a0.ty == 'dict' and a0.kw and not a0.open_kw and a0.keyelem is None:
                 return AV(ty=name, elts=[const(k) for k in a0.kw], deps=d, fresh=True)  # the keys, in insertion order
             el = self.iter_item(interp, st, a0, None, None)
